@@ -278,6 +278,21 @@ func checkC05() fw.Check {
 												dd = e.spec.Timeout - 200*time.Millisecond
 											}
 											m.destDelay = dd
+											if !v.Serial {
+												// (a) one send returns late: the sender sits 150 ms (more than a poll interval) inside the write
+												// after the packet left; the RTT reference is the hand-off, not the return
+												e.w.Faults[simnet.FaultKey{Handle: -1, Op: "write", K: 2}] = simnet.Fault{StallAfter: 150 * time.Millisecond}
+												// (b) after the destination's reply for its TTL was accepted, a slower router on another
+												// path answers the same probe: the first accepted reply keeps the hop and its RTT
+												if reach {
+													m.extra = func(e *simEnv, p *refmatch.Probe) {
+														if p.TTL == dist {
+															e.inject(gen.WrapError(routerAddr(v.V6, 2, p.TTL), e.local, gen.TimeExceeded, 0, gen.QuoteBytes(p, 1, "fix"), "min", nil, 0),
+																"late-router-same-ttl", p, oddUS(dd+333*time.Millisecond))
+														}
+													}
+												}
+											}
 											if dp.name == "window-crossing" && v.Proto == "syn" {
 												// a closed port answers RST-ACK
 												m.destBuild = func(e *simEnv, p *refmatch.Probe) []byte {
